@@ -490,7 +490,8 @@ def check_case(line, meta, hout, dline, dout, stats, notes):
                              "corrects it (mean differs by %.3g, covariance by %.3g)"
                              % (msz, bs, "returned the predicted belief unchanged" if not changed else "did not evaluate the measurement model", dm, dc))]
     if not performed:
-        return probs + [("prop", "no-sigma-points", "the serial correction changed the belief without evaluating the measurement model on %d sigma points (asked about %d / told %d columns)" % (s_pts * k, o["xcols"], o["ycols"]))]
+        return probs + [("prop", "no-sigma-points", "a valid measurement of admissible size was not used by the serial correction: the measurement model was not evaluated on "
+                         "the %d sigma points (asked about %d / told %d columns); belief %s" % (s_pts * k, o["xcols"], o["ycols"], "changed nevertheless" if changed else "returned unchanged"))]
     if not all(math.isfinite(v) for v in sm + sc):
         return probs + [("prop", "non-finite", "serial correction returned non-finite mean/covariance entries on a valid input")]
     if not ("u_mean" in o):
@@ -506,7 +507,8 @@ def check_case(line, meta, hout, dline, dout, stats, notes):
         probs.append(("corr", "model-no-likelihood", "model took an early return where the implementation did not"))
         return probs
     wc = [Fraction(unhex(v)) for v in o["wc"]]
-    all_exact = all(exact_sqrt(w) for w in wc)
+    # exact only without circular rows: directional_sub goes through Float sin / cos / atan2 in the model run
+    all_exact = all(exact_sqrt(w) for w in wc) and c["nc"] == 0
     if any(w < 0 for w in wc):
         notes["negative_weight_generated"] = notes.get("negative_weight_generated", 0) + 1
     for i in range(k):
@@ -602,7 +604,7 @@ def run(ctx):
     cases = corpus_cases()       # (harness line, [single-call lines], meta)
     g = ctx.gen("sukf")
     cases += grid_cases(ctx.gen("sukf-grid"), ctx.tier)      # exhaustive over (block size, measurement size)
-    for i in range(ctx.n(170, 2500)):
+    for i in range(ctx.n(140, 2500)):
         cases.append(gen_case(g, ctx.tier, i))
     if ctx.replay:
         rep = json.load(open(ctx.replay))["replay"]
